@@ -53,7 +53,7 @@ def run(ctx):
     tmpdir = tempfile.mkdtemp(prefix="verif_c01_")
     counter = [0]
 
-    def file_based(text, case, impl):
+    def file_based(text, case, impl, extra=()):
         """the same text given as a file (with and without a final line end) must give the same tables"""
         counter[0] += 1
         for strip in (False, True):
@@ -62,6 +62,8 @@ def run(ctx):
                 f.write(text.rstrip("\r\n\t ") if strip else text)
             try:
                 q = DecFileParser(path)
+                if extra:
+                    q.load_additional_decay_models(*extra)
                 q.parse(include_ccdecays=case["include_ccdecays"])
                 got = impl_tables(q)
             except Exception as e:
@@ -71,10 +73,10 @@ def run(ctx):
                               dict(case, final_newline=not strip), impl=got if isinstance(got, str) else got[:3], model=impl[:3], clause="file-based construction")
                 return
 
-    def one(text, label, doc=None, cc=True):
+    def one(text, label, doc=None, cc=True, extra=()):
         case = {"kind": "tables", "label": label, "text": text if len(text) < 4000 else text[:300] + "...", "include_ccdecays": cc}
         try:
-            wire = conv_tree(raw_parse(text))
+            wire = conv_tree(raw_parse(text, extra))
         except Exception as e:
             if doc is not None:
                 res.violation(f"a well-formed text is rejected by the grammar: {type(e).__name__}", case, clause="well-formed text")
@@ -84,6 +86,9 @@ def run(ctx):
             res.violation("the parse tree does not state what was written", case, impl=wire[:3], model=doc[:3], clause="reading of the text")
         try:
             p = DecFileParser.from_string(text)
+            if extra:
+                p.load_additional_decay_models(*extra)
+                case["registered"] = list(extra)
             p.parse(include_ccdecays=cc)
             impl = impl_tables(p)
             pub = impl_tables_public(p)
@@ -105,8 +110,10 @@ def run(ctx):
                     for d in l[1]:
                         used_chars.update(d)
         if impl is not None and len(text) < 6000 and res.evaluations % 3 == 0:
-            def again(text=text, cc=cc):
+            def again(text=text, cc=cc, extra=extra):
                 q = DecFileParser.from_string(text)
+                if extra:
+                    q.load_additional_decay_models(*extra)
                 q.parse(include_ccdecays=cc)
                 return impl_tables(q)
 
@@ -123,7 +130,7 @@ def run(ctx):
             if [list(x[1] for x in ls) for m, ls in pub] != [[list(fs) for fs in p.list_decay_modes(m)] for m, _ in pub]:
                 res.violation("list_decay_modes differs from the decay mode details", case, clause="daughters verbatim and in order")
             if doc is not None and res.evaluations % 4 == 0:
-                file_based(text, case, impl)
+                file_based(text, case, impl, extra)
 
         def on(ans, case=case, impl=impl, err=err):
             if ans is None:
@@ -176,6 +183,16 @@ def run(ctx):
             one(render_doc(d2), "generated:sibling", doc=d2, cc=cc)
             one(render_doc(doc), "generated:again", doc=doc, cc=cc)
             res.count("siblings")
+    # model names registered by the user (in this order), some extending a published or an earlier registered name with a
+    # character that is no word character: the name written is the name reported, and its parameters are its own
+    extra = ["MYGEN", "MYGEN-V2", "PHSP-NR", "HELAMP-LHCB", "MYGEN-V2-b", "X_MODEL"]
+    for k in range(4 if tier == "quick" else 40):
+        lines = []
+        for _ in range(rng.randint(2, 6)):
+            name = rng.choice(extra + ["PHSP", "HELAMP"])
+            lines.append([rng.choice(gen.BF_CHOICES), gen.safe_names(rng, 2), rng.random() < 0.3, ["named", name, gen.rand_params(rng) if rng.random() < 0.6 else None]])
+        doc = [["decay", "B0sig", lines]]
+        one(render_doc(doc), "registered-models", doc=doc, extra=tuple(extra))
     # every published model, with and without parameters and PHOTOS, in one sweep
     models = gen.known_models()
     chunk = []
